@@ -202,9 +202,8 @@ CHECKS = {
                   "accepted by the message monitor) via a coupling invariant; every-schedule reachability MReach; "
                   "transmit lock cannot be taken during an ACK wait; virtual-time differential against real "
                   "ZBOSS.request tasks with a reference-NCP monitor",
-        text="Kernel-checked for every event history on one connection (no connect() on the same object in between; "
-             "histories with reconnects are in the model and tied by the differential and a contiguity monitor): the whole "
-             "wire log is accepted by the message monitor - the fragments of a message go out in order 0..n-1, the last data frame before fragment f>0 of a request is "
+        text="Kernel-checked for every event history, any number of close() / connect() cycles on the same object included: "
+             "the whole wire log is accepted by the message monitor - the fragments of a message go out in order 0..n-1, the last data frame before fragment f>0 of a request is "
              "fragment f-1 of the same request (C11_contiguous), an abandoned message is never continued; at most one "
              "request is inside its transmission and at most one awaits an ACK, in every state the event loop can be in "
              "under every order of task micro-steps (C11_any_schedule); no task step writes a data frame while an ACK "
@@ -217,8 +216,8 @@ CHECKS = {
              "reference-NCP monitor (well-formed writes, contiguous fragments, reassembled bytes == request).",
         note=Q + "; byte-level well-formedness of each write is C05/C09; the request machine (C11_trace) is abstract in the "
              "frame contents, the wire theorem (C11_ncp_sees_request) is about the bytes of one message: the two meet at "
-             "'no data frame of another message in between'; the trace theorem is stated per connection (gen = 0), the other "
-             "invariants (at most one request in transmission, C11_any_schedule's first clause) for every history",
+             "'no data frame of another message in between'; the every-schedule form (C11_any_schedule, events striking in the "
+             "middle of a loop iteration) claims the trace on the first connection only",
         design="7/C11, 12.1"),
     "C13": dict(
         technique="Lean 4 proof: no-residue invariant (every registered listener belongs to a running request) preserved "
